@@ -2,7 +2,7 @@
 // @engine B
 // @entry vfh_C11_init_mix
 // @tier Q
-// @opts timeout_ms=5000 budget_s=200
+// @opts timeout_ms=12000 budget_s=330
 // @reach init_mix.returned
 // @funcs Phreeqc::init_mix
 // @bounds single diffusion coefficient branch (multi_D off); quick: 2 cells, flow in {0,1}, boundaries in {constant,closed}^2; thorough: 1..3 cells, flow in {-1,0,1}, boundaries in {constant,closed,flux}^2, cell lengths in [0.05,20] m, dispersivities in [0,5] m, diffc*timest in [0,5] m2, correct_disp on/off, equal or unequal cells (all by case split); ints derived from floor() are mathematical integers
